@@ -49,6 +49,10 @@ const KeyMergeLabels = "C14/failed-label-merge-visible"
 // a tombstone store was removed" (see TestFinding_heartbeat_panics_after_tombstone_removed).
 const KeyHeartbeatPanic = "C14/heartbeat-panics-after-tombstone-removed"
 
+// KeyWeightKeys names the finding "a failed SetStoreWeight leaves the weight keys it already
+// wrote in storage" (see TestFinding_failed_setstoreweight_leaves_weight_keys).
+const KeyWeightKeys = "C14/failed-setstoreweight-leaves-weight-keys"
+
 // KeyStaleDeleted names the finding "a store whose record was removed while another member
 // led is served again when this member becomes leader again" (see
 // TestFinding_removed_store_served_again_after_leader_round_trip).
@@ -282,9 +286,9 @@ type mstore struct {
 	deploy    string
 	labels    []Label
 	lw, rw    float64
-	// weights as the weight keys in storage have them: a SetStoreWeight whose later write fails
-	// leaves the keys it already wrote behind (served state unchanged, as required); they stay
-	// "in doubt" until the next successful SetStoreWeight — or become served by a restart
+	// weights as the weight keys in storage must have them (== served weights: a failed
+	// SetStoreWeight must not leave half of itself in storage, where the next successful change of
+	// the store or a reload would expose it)
 	slw, srw float64
 }
 
@@ -893,6 +897,7 @@ func runHistory(c Case, spinners int) (vkit.Info, error) {
 	afterRestart := false // no store operation since the last restart
 	terms := [2]int{1, 0} // leadership terms served by each member so far
 	knownStale := vkit.Known(KeyStaleDeleted)
+	knownWeightKeys := vkit.Known(KeyWeightKeys)
 	pendingN := 0
 	for i, op := range c.Ops {
 		if op.Kind == "fail" {
@@ -1415,6 +1420,11 @@ func runHistory(c Case, spinners int) (vkit.Info, error) {
 			return info, fmt.Errorf("harness: unknown op kind %q", op.Kind)
 		}
 
+		// known finding: SetStoreWeight failing at its 2nd or 3rd write (region weight key, store record)
+		if knownWeightKeys && op.Kind == "weight" && fl != nil && fl.mode == "nth" && (fl.n == 2 || fl.n == 3) && m.stores[target] != nil {
+			fl = nil
+			info.Exclude(KeyWeightKeys)
+		}
 		// known finding: a label merge that fails after it touched an existing label
 		if knownMerge && mergeRisk {
 			if fl != nil && fl.n == 1 {
@@ -1476,13 +1486,10 @@ func runHistory(c Case, spinners int) (vkit.Info, error) {
 				return info, fmt.Errorf("%s: the write of a store key failed but the operation reported success", at)
 			}
 			if op.Kind == "weight" && fl.count > 1 {
-				if s := m.stores[target]; s != nil {
-					s.slw = attLW // the leader key was written before the failure
-					if fl.count > 2 {
-						s.srw = attRW
-					}
-					info.Class("weights-in-doubt")
-				}
+				// the operation failed after it had written weight keys: the stored weights must
+				// still be what is served (the model's slw / srw stay as they are)
+				info.Class("setstoreweight-failed-after-writing-weight-keys")
+				_, _ = attLW, attRW
 			}
 		case expectErr != "":
 			if err == nil {
